@@ -7,6 +7,7 @@ import (
 	"fmt"
 	"math"
 	"net/netip"
+	"runtime/debug"
 	"time"
 
 	"github.com/database64128/shadowsocks-go/conn"
@@ -86,7 +87,7 @@ var advances = []time.Duration{
 	59 * time.Second, 60*time.Second - time.Nanosecond, 60 * time.Second, 60*time.Second + time.Nanosecond, 61 * time.Second, 90 * time.Second,
 }
 
-var tsOffsets = []int64{0, 0, 0, 1, -1, 15, -15, 29, -29, 30, -30}
+var tsOffsets = []int64{0, 0, 0, 1, -1, 15, -15, 29, -29, 30, -30} // -30 is already expired at creation
 var staleOffsets = []int64{31, -31, 32, -32, 60, -60, 3600, -3600, math.MaxInt64 / 2, math.MinInt64 / 2, -bubbleEpoch, -bubbleEpoch - 1}
 
 func drawCfg(rt *rapid.T) pcfg {
@@ -213,14 +214,28 @@ func resolveID(s step, size, last uint64, hi bool) uint64 {
 		}
 		return last - d
 	default:
-		return s.IDv % (last + 2*size + 130)
+		if m := last + 2*size + 130; m > last {
+			return s.IDv % m
+		}
+		return s.IDv // newest id within 2*size+130 of 2^64: any id
 	}
 }
 
-// tsValid is the documented timestamp rule (header.go: MaxEpochDiff = 30, compared on whole
-// unix seconds): a timestamp is acceptable iff it is within 30 s of the receiver's clock.
+// guard turns a panic raised while a plan runs inside the bubble (harness or code under test) into
+// a reported violation: an unrecovered panic in a bubble goroutine would kill the test binary and
+// with it rapid's shrinking. It never turns a panic into a pass.
+func guard(res *pktResult) {
+	if p := recover(); p != nil {
+		res.violation = fmt.Sprintf("SIG=C04/panic %v\n%s", p, debug.Stack())
+	}
+}
+
+// tsValid is the documented timestamp rule (header.go ValidateUnixEpochTimestamp after fix adaf1bd):
+// compared on whole unix seconds, a timestamp is acceptable iff -30 < ts-now <= 30, i.e. up to 30 s
+// ahead of the receiver's clock and strictly less than 30 whole seconds behind it (so that a
+// timestamp never stays valid longer than the 60 s replay window).
 func tsValid(ts uint64, now time.Time) bool {
-	return ts-uint64(now.Unix())+30 <= 60 // wrapping on purpose: ts in [now-30, now+30]
+	return ts-uint64(now.Unix())+29 <= 59 // wrapping on purpose: ts in [now-29, now+30]
 }
 
 // pkt is one packet of the pool together with what the harness knows about it.
